@@ -52,7 +52,7 @@ class Sc:
     def __init__(self, ctype: str, flavor: str, max_connections: int = 2, resp_delay: float = 1.0,
                  timeouts: dict | None = None, retries: int = 0, keepalive_expiry: float | None = None,
                  n_probe: int = 3, legacy_proxy: bool = False, log_events: bool = True, interim: bool = False,
-                 trace_raise=None) -> None:
+                 trace_raise=None, trace_form="function") -> None:
         t = TYPES[ctype]
         self.ctype = ctype
         self.max_connections = max_connections
@@ -110,6 +110,7 @@ class Sc:
         # (suffix, n): the caller's trace callback raises TraceBoom at the n-th event whose name ends with the suffix
         self.trace_raise = tuple(trace_raise) if trace_raise else None
         self.trace_raise_seen = 0
+        self.trace_form = trace_form
         self.trace_raise_fired = None
 
     def _trace_boom(self, name, call="victim"):
@@ -138,6 +139,28 @@ class Sc:
             def trace(name, info):
                 _trace(ph, name, info, self)
                 self._trace_boom(name, call)
+        form = getattr(self, "trace_form", "function")
+        if form == "object":
+            # the callback is any callable: here an object whose __call__ is a coroutine function / a plain method
+            if is_async(self.flavor):
+                class _Cb:
+                    async def __call__(self_, name, info):
+                        await trace(name, info)
+            else:
+                class _Cb:
+                    def __call__(self_, name, info):
+                        trace(name, info)
+            trace = _Cb()
+        elif form == "partial":
+            import functools
+            inner = trace
+            if is_async(self.flavor):
+                async def _with_tag(tag, name, info):
+                    await inner(name, info)
+            else:
+                def _with_tag(tag, name, info):
+                    inner(name, info)
+            trace = functools.partial(_with_tag, "tag")
         ext = {"trace": trace}
         if self.timeouts:
             ext["timeout"] = dict(self.timeouts)
